@@ -231,6 +231,7 @@ func init() {
 		a := &acc{}
 		partRaceStorms(c, a)
 		partRealBinaryStorms(c, a)
+		partLockOrder(c, a, []string{"leave", "join", "switch", "delete", "lastleave", "create"})
 		return a.finish(c)
 	}
 }
